@@ -56,6 +56,16 @@ class Potential_Form_Registry(object):
     if register_standard:
       self._register_from_potentialforms(self._potential_forms)
 
+  def parse_expressions(self):
+    """Parse the formula of every [Potential-Form] now, rather than when it is first evaluated: a formula that no
+    potential uses (or uses only beyond the cutoff) is part of the model and does not go unchecked.
+
+    :raises Potential_Form_Exception: if a formula cannot be parsed."""
+    for pform in self._potential_forms.values():
+      parse = getattr(getattr(pform, "potential_function", None), "parse", None)
+      if parse:
+        parse()
+
   def _check_labels_differ_in_more_than_case(self):
     # The names of the expression library are case-insensitive: if labels differed only in case, a formula
     # calling one of them could silently be given the other.
